@@ -10,6 +10,19 @@ consumed(b1) == len(b1) == calcsize(o1) == calcsize(o2), all of it independent o
 and of library-allocated vs caller-supplied buffers.  A container whose polymorphic content is None (not
 understood / absent) may refuse to pack with its explicit TypeError.
 
+"Regardless of the offset / of the buffer" is taken over every call form the classes offer:
+  * pack(): library-allocated (no buffer, buffer=None, with and without return_buffer, a stray offset), and
+    caller-supplied bytearray / memoryview, positional and keyword arguments, return_buffer False / True / default,
+    at offsets OFFSETS + PACK_EXTRA with guard bytes before and after: the bytes in [off, off+size) equal pack(),
+    every guard byte is untouched, the return value is the size / the buffer;
+  * unpack(): bytes / bytearray / memoryview, positional and keyword, message_version= where the class takes it:
+    identical value and consumed count, input buffer unmodified;
+  * MessageHeader.pack(payload=...) (header + payload in one call) in the same forms, for the parsed header with
+    payloads of several lengths and for the serialisation of EVERY registered payload class; the result is read
+    back with validate_sync / validate_crc and the payload class's unpack at off + 24.
+The serialisation of a parsed object is never longer than what the parse consumed (the first parse may consume
+more: normalisation; never less).
+
 Everything here is deterministic in (seed, subject name); one subject = one work item for the pool.
 """
 import math
@@ -20,6 +33,7 @@ import zlib
 import canon as _canon
 
 OFFSETS = (0, 1, 3, 8)
+PACK_EXTRA = (24, 57)      # further write offsets: the header size (a message that follows a header) and a large odd one
 
 
 # ---------------------------------------------------------------------------------------------------------
@@ -408,15 +422,86 @@ def base_encodings(subj, rng, thorough):
 
 MUT_VALUES = (0x00, 0x01, 0x02, 0x7f, 0x80, 0xfe, 0xff)
 
+# one byte seen as a set of flag bits / a packed bit field: every combination of the four low bits, every single bit,
+# combinations of the top bit with the two low bits, the complements of the low-bit combinations
+BITS8 = tuple(sorted(set(range(16)) | {0x10, 0x20, 0x40, 0x7f, 0x80, 0x81, 0x82, 0x83, 0xc0, 0xf0, 0xfc, 0xfd, 0xfe, 0xff}))
+LOW2 = (0, 1, 2, 3)
 
-def encodings(subj, rng, thorough, budget):
+
+def field_values(w, thorough):
+    """raw values tried for an integer field of w bytes: all of them for one byte (BITS8 in the quick tier); for wider
+    fields every combination of the three low bits, every single bit alone and together with each combination of the
+    two low bits, all-ones below every bit, and the unsigned / signed extremes."""
+    if w == 1:
+        return tuple(range(256)) if thorough else BITS8
+    top = 1 << (8 * w)
+    vals = set(range(8))
+    for k in range(8 * w):
+        for low in LOW2:
+            vals.add((1 << k) | low)
+        vals.add((1 << k) - 1)
+    vals |= {top - 1, top - 2, top - 3, top - 4, top >> 1, (top >> 1) - 1, (top >> 1) + 1}
+    return tuple(sorted(v for v in vals if 0 <= v < top))
+
+
+def field_sweeps(bases, fl, ifields, rng, thorough):
+    """(cross, sweeps).  ifields = [(byte offset, width, codec kind)] of the integer fields at static offsets (from the
+    layout descriptor; None: unknown, every byte is treated as a one-byte field on the first base).
+    cross : EVERY base (every shape of the variable part, every sub-payload type) x every plain unsigned field (flags,
+            masks, counters) x all combinations of its two low bits + two further values - flag bits interact with the
+            shape of the rest of the message (a flag that says "no data follows" with / without data);
+    sweeps: the first bases x every integer field x field_values()."""
+    cross, sweeps = [], []
+    if not bases:
+        return cross, sweeps
+    if ifields is None:
+        ifields_first = [(i, 1, 'uint') for i in range(fl)]
+        ifields = []
+    else:
+        ifields_first = ifields
+    seen = set(bases)
+
+    def put(lst, b, off, w, v):
+        if off + w > min(fl, len(b)):
+            return
+        m = bytearray(b)
+        m[off:off + w] = v.to_bytes(w, 'little')
+        m = bytes(m)
+        if m not in seen:
+            seen.add(m)
+            lst.append(m)
+    for b in bases:
+        for off, w, kind in ifields:
+            if kind != 'uint':
+                continue
+            vals = field_values(w, False)
+            for v in LOW2 + (rng.choice(vals), rng.choice(vals)):
+                put(cross, b, off, w, v)
+    for bi, b in enumerate(bases[:(4 if thorough else 2)]):
+        for off, w, kind in ifields_first:
+            for v in field_values(w, thorough and bi == 0):
+                put(sweeps, b, off, w, v)
+    return cross, sweeps
+
+
+def encodings(subj, rng, thorough, budget, ifields=None):
     """b0 candidates for a subject: valid encodings, each byte of the fixed part set to boundary values one at a
-    time, random multi-byte mutations, wholly random fixed parts."""
+    time, random multi-byte mutations, wholly random fixed parts; integer fields as bit sets (field_sweeps)."""
     bases = base_encodings(subj, rng, thorough)
     out = list(bases)
     if not bases:
         return out
     flen = fixed_len(subj.name)
+    frng = random.Random(rng.random())        # own stream: the byte-wise candidates below do not depend on ifields
+    cross, sweeps = field_sweeps(bases, len(bases[0]) if flen is None else flen, ifields, frng, thorough)
+    cap = 6000 if thorough else 1500
+    if len(cross) > cap:                       # every (base, field) keeps its low-bit combinations as long as possible
+        frng.shuffle(cross)
+        cross = cross[:cap]
+    if len(sweeps) > cap:
+        frng.shuffle(sweeps)
+        sweeps = sweeps[:cap]
+    out = out + cross
     muts = []
     for bi, b in enumerate(bases):
         fl = len(b) if flen is None else min(flen, len(b))
@@ -445,7 +530,7 @@ def encodings(subj, rng, thorough, budget):
         rest = muts[len(keep):]
         rng.shuffle(rest)
         muts = keep[:budget * 2 // 3] + rest[:budget - min(len(keep), budget * 2 // 3)]
-    return out + muts
+    return out + muts + sweeps
 
 
 # ---------------------------------------------------------------------------------------------------------
@@ -513,15 +598,260 @@ def exc_name(e):
     return '%s: %s' % (type(e).__name__, str(e).replace('\n', ' ')[:120])
 
 
+# ---- call forms -----------------------------------------------------------------------------------------
+def _view(kind, ba):
+    return ba if kind == 'bytearray' else memoryview(ba)
+
+
+#  label, buffer kind, call(o, dst, off), what the call must return
+PACK_FORMS = (
+    ('pack(buffer, %d, return_buffer=False)', 'bytearray', lambda o, b, off: o.pack(b, off, return_buffer=False), 'size'),
+    ('pack(buffer, %d, return_buffer=True)', 'bytearray', lambda o, b, off: o.pack(b, off, return_buffer=True), 'buffer'),
+    ('pack(buffer, %d)', 'bytearray', lambda o, b, off: o.pack(b, off), 'either'),
+    ('pack(buffer=buffer, offset=%d, return_buffer=False)', 'bytearray',
+     lambda o, b, off: o.pack(buffer=b, offset=off, return_buffer=False), 'size'),
+    ('pack(return_buffer=True, offset=%d, buffer=buffer)', 'bytearray',
+     lambda o, b, off: o.pack(return_buffer=True, offset=off, buffer=b), 'buffer'),
+    ('pack(memoryview, %d, return_buffer=False)', 'memoryview', lambda o, b, off: o.pack(b, off, return_buffer=False), 'size'),
+    ('pack(memoryview, %d, return_buffer=True)', 'memoryview', lambda o, b, off: o.pack(b, off, return_buffer=True), 'buffer'),
+)
+
+#  library-allocated buffer: label, call(o), what the call must return
+ALLOC_FORMS = (
+    ('pack(return_buffer=True)', lambda o: o.pack(return_buffer=True), 'buffer'),
+    ('pack(None, 0, return_buffer=True)', lambda o: o.pack(None, 0, return_buffer=True), 'buffer'),
+    ('pack(buffer=None, return_buffer=True)', lambda o: o.pack(buffer=None, return_buffer=True), 'buffer'),
+    ('pack(None, 5, return_buffer=True)', lambda o: o.pack(None, 5, return_buffer=True), 'buffer'),   # offset is ignored without a buffer
+    ('pack(return_buffer=False)', lambda o: o.pack(return_buffer=False), 'size'),
+    ('pack()', lambda o: o.pack(), 'either'),
+)
+
+
+def _check_return(r, want, size, whole):
+    """None if the return value `r` of a pack call is what the call form promises, else (what was promised, text)."""
+    if want == 'either':
+        want = 'size' if isinstance(r, int) and not isinstance(r, bool) else 'buffer'
+    if want == 'size':
+        if not (isinstance(r, int) and not isinstance(r, bool) and r == size):
+            return 'size', 'returned %s, serialisation has %d bytes' % (r if isinstance(r, int) else type(r).__name__, size)
+        return None
+    try:
+        rb = bytes(r)
+    except Exception:
+        return 'buffer', 'returned %s, not a buffer' % type(r).__name__
+    if isinstance(r, int) or rb != whole:
+        return 'buffer', 'returned %s that differs from the expected content' % ('a buffer' if not isinstance(r, int) else repr(r))
+    return None
+
+
+def pack_call_forms(subj, o1, b1, offsets, rng, V):
+    """every way of asking for the serialisation of o1 must give b1 (first problem only)"""
+    for label, call, want in ALLOC_FORMS:
+        try:
+            r = call(o1)
+        except Exception as e:
+            V('offset-dependent', 'pack', '%s raised %s, the reference serialisation did not' % (label, exc_name(e)))
+            return
+        bad = _check_return(r, want, len(b1), b1)
+        if bad:
+            if bad[0] == 'size':
+                V('size-mismatch', 'pack-return', '%s %s' % (label, bad[1]))
+            else:
+                V('offset-dependent', 'pack', '%s (library-allocated buffer) %s' % (label, bad[1]))
+            return
+    offs = list(offsets) + [x for x in PACK_EXTRA if x not in offsets] + [len(b1) + 2]
+    for off in offs:
+        pre = rbytes(rng, off)
+        post = rbytes(rng, rng.choice([0, 7, 33]))
+        whole = pre + b1 + post
+        for label, kind, call, want in PACK_FORMS:
+            label = label % off
+            ba = bytearray(pre + bytes([0xA5]) * len(b1) + post)
+            try:
+                r = call(o1, _view(kind, ba), off)
+            except Exception as e:
+                V('offset-dependent', 'pack', '%s raised %s, pack() did not' % (label, exc_name(e)))
+                return
+            if bytes(ba) != whole:
+                out = bytes(ba[:off]) != pre or bytes(ba[off + len(b1):]) != post
+                V('offset-dependent', 'pack', '%s into a caller buffer (%d guard bytes before, %d after) differs from pack() (%s)' % (
+                    label, off, len(post), 'bytes outside [off, off+size) changed' if out else 'inside [off, off+size)'))
+                return
+            bad = _check_return(r, want, len(b1), whole)
+            if bad:
+                if bad[0] == 'size':
+                    V('size-mismatch', 'pack-return', '%s %s' % (label, bad[1]))
+                else:
+                    V('offset-dependent', 'pack', '%s %s' % (label, bad[1]))
+                return
+
+
+def unpack_forms(subj):
+    """(label, kind, call(o, src, off)) - the reference form is unpack(bytes, off)"""
+    import inspect
+    forms = [
+        ('unpack(bytearray, %d)', 'bytearray', lambda o, b, off: o.unpack(b, off)),
+        ('unpack(memoryview, %d)', 'memoryview', lambda o, b, off: o.unpack(b, off)),
+        ('unpack(buffer=bytes, offset=%d)', 'bytes', lambda o, b, off: o.unpack(buffer=b, offset=off)),
+    ]
+    try:
+        params = inspect.signature(subj.cls.unpack).parameters
+    except (TypeError, ValueError):
+        params = {}
+    ver = getattr(subj.cls, 'MESSAGE_VERSION', None)
+    if 'message_version' in params and isinstance(ver, int):
+        forms.append(('unpack(bytes, %%d, message_version=%d)' % ver, 'bytes', lambda o, b, off: o.unpack(b, off, message_version=ver)))
+    return forms
+
+
+def unpack_call_forms(subj, buf, off, ref, V):
+    """ref = ('ok', n, cval) | ('err', exception name, None) of unpack(bytes, off); the other forms must agree"""
+    for label, kind, call in subj._uforms:
+        label = label % off
+        ba = bytearray(buf)
+        src = bytes(buf) if kind == 'bytes' else _view(kind, ba)
+        o = subj.new()
+        try:
+            n = call(o, src, off)
+            got = ('ok', int(n), cval(o))
+        except Exception as e:
+            got = ('err', type(e).__name__, None)
+        if got[0] != ref[0] or (got[0] == 'ok' and (got[1] != ref[1] or got[2] != ref[2])):
+            df = ','.join(diff_fields(ref[2], got[2])) if got[0] == 'ok' and ref[0] == 'ok' else ''
+            V('offset-dependent', 'unpack', '%s gives %s, unpack(bytes, %d) gives %s %s' % (label, got[:2], off, ref[:2], df))
+            return False
+        if bytes(ba) != bytes(buf):
+            V('offset-dependent', 'unpack', '%s modified the buffer it was reading' % label)
+            return False
+    return True
+
+
+HDR_FORMS = (
+    ('pack(buffer, %d, payload=p, return_buffer=False)', 'bytearray', lambda h, b, off, p: h.pack(b, off, payload=p, return_buffer=False), 'size'),
+    ('pack(buffer, %d, payload=p)', 'bytearray', lambda h, b, off, p: h.pack(b, off, payload=p), 'buffer'),
+    ('pack(buffer, %d, p, True)', 'bytearray', lambda h, b, off, p: h.pack(b, off, p, True), 'buffer'),
+    ('pack(payload=p, return_buffer=False, offset=%d, buffer=buffer)', 'bytearray',
+     lambda h, b, off, p: h.pack(payload=p, return_buffer=False, offset=off, buffer=b), 'size'),
+    ('pack(memoryview, %d, payload=p, return_buffer=True)', 'memoryview', lambda h, b, off, p: h.pack(b, off, payload=p, return_buffer=True), 'buffer'),
+    ('pack(memoryview, %d, payload=memoryview(p), return_buffer=False)', 'memoryview',
+     lambda h, b, off, p: h.pack(b, off, payload=memoryview(p), return_buffer=False), 'size'),
+)
+
+
+def header_payload_forms(mk_header, payload, offsets, rng, V, reader=None, what=''):
+    """MessageHeader.pack(payload=...): header + payload in one call.  Library-allocated vs caller-supplied buffer at
+    offsets with guard bytes, read back with sync / CRC validation (and through `reader`, the payload class's unpack).
+    Problems are attributed to MessageHeader (4th element)."""
+    from fusion_engine_client.messages import MessageHeader
+    HS = 24
+
+    def VH(kind, detail, desc):
+        V(kind, detail, desc + what, 'MessageHeader')
+
+    payload = bytes(payload)
+    size = HS + len(payload)
+    h = mk_header()
+    try:
+        m = bytes(h.pack(payload=payload))
+    except Exception as e:
+        VH('cannot-pack', 'payload', 'MessageHeader.pack(payload=<%d bytes>) raised %s' % (len(payload), exc_name(e)))
+        return
+    if len(m) != size or m[HS:] != payload or m[:2] != b'.1':
+        VH('bytes-differ', 'payload', 'MessageHeader.pack(payload=<%d bytes>) gave %d bytes / not sync + header + payload' % (len(payload), len(m)))
+        return
+    if h.payload_size_bytes != len(payload) or h.get_message_size() != size:
+        VH('size-mismatch', 'message-size', 'after pack(payload=<%d bytes>): payload_size_bytes %r, get_message_size() %r, serialisation %d bytes'
+           % (len(payload), h.payload_size_bytes, h.get_message_size(), size))
+        return
+    try:
+        r = mk_header().pack(payload=payload, return_buffer=False)
+        if r != size:
+            VH('size-mismatch', 'pack-return-payload', 'MessageHeader.pack(payload=<%d bytes>, return_buffer=False) returned %r, '
+               'serialisation has %d bytes' % (len(payload), r, size))
+            return
+        h1 = bytes(h.pack())
+        if h1 != m[:HS]:
+            VH('bytes-differ', 'payload', 'pack() after pack(payload=...) does not reproduce the header bytes of the message')
+            return
+    except Exception as e:
+        VH('cannot-pack', 'payload', 'MessageHeader.pack(...) raised %s' % exc_name(e))
+        return
+    ch = cval(h)
+    offs = list(offsets) + [x for x in PACK_EXTRA if x not in offsets] + [size + 2]
+    for off in offs:
+        pre = rbytes(rng, off)
+        post = rbytes(rng, rng.choice([0, 7, 33]))
+        whole = pre + m + post
+        for label, kind, call, want in HDR_FORMS:
+            label = 'MessageHeader.' + (label % off) + ' with a %d-byte payload' % len(payload)
+            ba = bytearray(pre + bytes([0xA5]) * size + post)
+            h2 = mk_header()
+            try:
+                r = call(h2, _view(kind, ba), off, payload)
+            except Exception as e:
+                VH('offset-dependent', 'pack-payload', '%s raised %s, pack(payload=p) did not' % (label, exc_name(e)))
+                return
+            if bytes(ba) != whole:
+                out = bytes(ba[:off]) != pre or bytes(ba[off + size:]) != post
+                VH('offset-dependent', 'pack-payload', '%s (%d guard bytes before, %d after) differs from pack(payload=p) (%s)' % (
+                    label, off, len(post), 'bytes outside [off, off+size) changed' if out else 'inside [off, off+size)'))
+                return
+            bad = _check_return(r, want, size, whole)
+            if bad:
+                VH('size-mismatch' if bad[0] == 'size' else 'offset-dependent', 'pack-return-payload' if bad[0] == 'size' else 'pack-payload',
+                   '%s %s' % (label, bad[1]))
+                return
+        # header alone into the caller's buffer (the payload is written by the caller)
+        ba = bytearray(pre + bytes([0xA5]) * size + post)
+        h3 = mk_header()
+        try:
+            h3.calculate_crc(payload)
+            r = h3.pack(ba, off, return_buffer=False)
+        except Exception as e:
+            VH('offset-dependent', 'pack', 'calculate_crc(p); pack(buffer, %d, return_buffer=False) raised %s' % (off, exc_name(e)))
+            return
+        if r != HS or bytes(ba) != pre + m[:HS] + bytes([0xA5]) * len(payload) + post:
+            VH('offset-dependent', 'pack', 'calculate_crc(p); pack(buffer, %d, return_buffer=False) -> %r: header bytes differ from those of '
+               'pack(payload=p) or bytes outside [off, off+24) changed' % (off, r))
+            return
+        # read the message back where it was written
+        for kind in ('bytes', 'bytearray', 'memoryview'):
+            ba = bytearray(whole)
+            src = bytes(whole) if kind == 'bytes' else _view(kind, ba)
+            h4 = MessageHeader()
+            try:
+                n = h4.unpack(src, off, validate_sync=True, validate_crc=True, warn_on_unrecognized=False)
+                n2, sync = MessageHeader().unpack(src, offset=off, validate_sync=True, validate_crc=True, warn_on_unrecognized=False,
+                                                  return_sync_bytes=True)
+            except Exception as e:
+                VH('value-drift', 'reparse', 'message written by pack(payload=p) does not read back (%s, offset %d): %s' % (kind, off, exc_name(e)))
+                return
+            if n != HS or n2 != HS or sync != b'.1' or cval(h4) != ch:
+                VH('value-drift', ','.join(diff_fields(ch, cval(h4))) or 'consumed', 'header read back from %s at offset %d: consumed %r, fields %s differ'
+                   % (kind, off, n, diff_fields(ch, cval(h4))))
+                return
+            if bytes(ba) != whole:
+                VH('offset-dependent', 'unpack', 'MessageHeader.unpack(%s, %d, validate_crc=True) modified the buffer' % (kind, off))
+                return
+        if reader is not None:
+            why = reader(whole, off + HS)
+            if why:
+                V('offset-dependent', 'unpack', 'payload of a complete message (header at offset %d): %s' % (off, why))
+                return
+
+
 def roundtrip(subj, b0, offsets, rng):
     """Returns (status, violations) with violations = list of (kind, field_or_None, description).
     status: 'unparsed' | 'refused' | 'ok' | 'violated'."""
     name = subj.name
     viols = []
 
-    def V(kind, detail, desc):
-        viols.append((kind, detail, desc))
+    def V(kind, detail, desc, subject=None):
+        viols.append((kind, detail, desc) if subject is None else (kind, detail, desc, subject))
 
+    forms = subj.into
+    if forms and not hasattr(subj, '_uforms'):
+        subj._uforms = unpack_forms(subj)
     first = None
     post = b'' if subj.greedy else rbytes(rng, rng.choice([0, 0, 5, 24]))   # same suffix at every offset
     for off in offsets:
@@ -534,6 +864,8 @@ def roundtrip(subj, b0, offsets, rng):
         except Exception as e:
             o1 = None
             res = ('err', type(e).__name__, None)
+        if forms and not unpack_call_forms(subj, buf, off, res, V):
+            return 'violated', viols
         if first is None:
             first = (res, o1, off, post)
         elif res[0] != first[0][0] or (res[0] == 'ok' and (res[1] != first[0][1] or res[2] != first[0][2])):
@@ -563,6 +895,9 @@ def roundtrip(subj, b0, offsets, rng):
         else:
             V('cannot-pack', type(e).__name__, 'object parsed from %d bytes cannot be serialised: %s' % (len(b0), exc_name(e)))
         return 'violated', viols
+    if len(b1) > n0:
+        V('size-mismatch', 'serialisation-longer', 'unpack consumed %d bytes, the serialisation of the parsed object has %d (%s -> %s)' % (
+            n0, len(b1), b0[:n0].hex()[:64], b1.hex()[:96]))
     # ---- self-reported size
     try:
         sz = subj.calcsize(o1)
@@ -570,35 +905,38 @@ def roundtrip(subj, b0, offsets, rng):
             V('size-mismatch', 'calcsize', 'calcsize() = %s, serialisation has %d bytes' % (sz, len(b1)))
     except Exception as e:
         V('size-mismatch', 'calcsize', 'calcsize() raised %s (serialisation has %d bytes)' % (exc_name(e), len(b1)))
-    # ---- caller-supplied buffer at offsets
-    if subj.into:
-        for off in offsets:
-            pre = rbytes(rng, off)
-            post = rbytes(rng, rng.choice([0, 7]))
-            filler = bytes([0xA5]) * len(b1)
-            buf2 = bytearray(pre + filler + post)
-            try:
-                r = subj.pack_into(o1, buf2, off)
-            except Exception as e:
-                V('offset-dependent', 'pack', 'pack(buffer, %d, return_buffer=False) raised %s, pack() did not' % (off, exc_name(e)))
-                break
-            if r != len(b1):
-                V('size-mismatch', 'pack-return', 'pack(buffer, %d, return_buffer=False) returned %s, serialisation has %d bytes'
-                  % (off, r, len(b1)))
-                break
-            if bytes(buf2[off:off + len(b1)]) != b1 or bytes(buf2[:off]) != pre or bytes(buf2[off + len(b1):]) != post:
-                where = 'outside [off, off+size)' if (bytes(buf2[:off]) != pre or bytes(buf2[off + len(b1):]) != post) else 'inside'
-                V('offset-dependent', 'pack', 'pack into a caller buffer at offset %d differs from pack() (%s)' % (off, where))
-                break
-            buf3 = bytearray(pre + filler + post)
-            try:
-                rb = subj.pack_into_ret(o1, buf3, off)
-                if bytes(rb) != bytes(buf2):
-                    V('offset-dependent', 'pack', 'pack(buffer, %d) returned a buffer that differs from the one written with return_buffer=False' % off)
+    # ---- every pack() call form: library-allocated, caller-supplied at offsets with guard bytes
+    if forms:
+        pack_call_forms(subj, o1, b1, offsets, rng, V)
+        # ---- header + payload in one call
+        if name == 'MessageHeader':
+            import copy
+            for plen in (rng.choice([0, 1, 7]), rng.choice([2, 24, 57, 140, 300])):
+                header_payload_forms(lambda: copy.copy(o1), rbytes(rng, plen), offsets, rng, V)
+                if viols:
                     break
-            except Exception as e:
-                V('offset-dependent', 'pack', 'pack(buffer, %d) raised %s' % (off, exc_name(e)))
-                break
+        elif getattr(subj.cls, 'MESSAGE_TYPE', None) is not None and not viols:
+            from fusion_engine_client.messages import MessageHeader
+            seq, src = rng.choice([0, 1, 0xFFFFFFFF, rng.getrandbits(32)]), rng.choice([0, 1, 0xFFFFFFFF])
+
+            def mk():
+                h = MessageHeader(subj.cls.MESSAGE_TYPE)
+                h.message_version = subj.cls.MESSAGE_VERSION
+                h.sequence_number = seq
+                h.source_identifier = src
+                return h
+
+            def reader(buf, off):
+                if subj.greedy:            # consumes the rest of the buffer: hand it the message only
+                    buf = buf[:off + len(b1)]
+                try:
+                    o, n = subj.unpack(buf, off)
+                except Exception as e:
+                    return 'unpack at offset %d raised %s' % (off, exc_name(e))
+                if n != len(b1):
+                    return 'unpack at offset %d consumed %r of a %d-byte payload' % (off, n, len(b1))
+                return None
+            header_payload_forms(mk, b1, offsets, rng, V, reader, ' (payload = serialisation of a parsed %s)' % name)
     # ---- parse the serialisation again, at offsets
     o2 = None
     post = b'' if subj.greedy else rbytes(rng, rng.choice([0, 9]))
@@ -651,14 +989,15 @@ def signature(name, kind, detail):
 
 def run_subject(args):
     """Pool work item.  Returns a dict with counters, violations [(sig, desc, replay)], samples."""
-    name, seed, thorough, budget = args
+    name, seed, thorough, budget = args[:4]
+    ifields = args[4] if len(args) > 4 else None
     rng = random.Random(zlib.crc32(name.encode()) * 7919 + seed)
     subj = subject_by_name(name)
     res = {'name': name, 'cases': 0, 'parsed': 0, 'unparsed': 0, 'refused': 0, 'ok': 0, 'normalised': 0, 'violations': [],
            'distinct': [], 'lens': {}, 'sample': None}
     seen_sig = set()
     try:
-        encs = encodings(subj, rng, thorough, budget)
+        encs = encodings(subj, rng, thorough, budget, ifields)
     except Exception as e:       # generator trouble is an infrastructure error, not a violation
         res['infra'] = 'generator failed for %s: %s' % (name, exc_name(e))
         return res
